@@ -15,6 +15,10 @@ type Priority = u32;
 
 #[allow(static_mut_refs)]
 fn gen_priority() -> Priority {
+    #[cfg(feature = "verif")]
+    if let Some(source) = crate::verif::priority_source() {
+        return source();
+    }
     unsafe { RNG.next_raw() as Priority }
 }
 
